@@ -63,6 +63,10 @@ def check_spacing(p, r):
         ex = paths.Explorer(p, s.ci.key, tracked=set(s.lists), atomic=set(), unroll=1, split_bool_returns=True)
         bad_ne = bad_e = None
         n_ne = n_e = 0
+        # a store whose move process books the time an item stood still (item.total_interruption_time) measures spacing in *moving* time
+        tracks_stall = any(isinstance(n, ast.Attribute) and n.attr == 'total_interruption_time' and isinstance(n.ctx, ast.Store)
+                           for c in p.mro(s.ci.key) for m in c.methods.values() for n in ast.walk(m.node))
+        bad_stall = None
         for pa in ex.paths(fi):
             if pa.raises:
                 continue
@@ -87,6 +91,9 @@ def check_spacing(p, r):
                     pace = (('self', 'delay') in atoms) or ((('self', 'speed') in atoms) and last_len)
                     if last_entry and pace:         # (the clock cancels out while the last item is interrupted: not required)
                         ok = True
+                        stalled = any(a[0] == 'attr' and a[2] == 'total_interruption_time' and mentions(a[1], ('const', -1)) and mentions(a[1], 'items') for a in atoms)
+                        if tracks_stall and not stalled:
+                            bad_stall = pa
                 if not ok:
                     bad_ne = pa
             else:
@@ -109,6 +116,14 @@ def check_spacing(p, r):
                    src(fi.module), fi.node.lineno, bad_ne.describe())
         else:
             r.ok('C12.R1', k1, f'spacing test against items[-1] on {n_ne} granting path(s)', src(fi.module), fi.node.lineno)
+        if tracks_stall and n_ne:
+            k3 = f'{fi.key}::spacing-gate[moving time]'
+            if bad_stall is not None and not bad_ne:
+                r.fail('C12.R1', k3, 'the spacing test measures the time since the last item entered without taking off the time that item stood still '
+                                     '(its total_interruption_time): after a stall is released the belt has carried it less than one item length, yet the next '
+                                     'item is admitted - two items closer than one item length', src(fi.module), fi.node.lineno, bad_stall.describe())
+            elif not bad_ne:
+                r.ok('C12.R1', k3, 'time since entry minus the completed and the current interruption of items[-1]', src(fi.module), fi.node.lineno)
         if n_e == 0:
             r.fail('C12.R1', k2, 'no granting path for an empty belt', src(fi.module), fi.node.lineno)
         elif bad_e:
